@@ -25,7 +25,7 @@ def drive(rng, tier):
     prune = rng.random() < 0.5
     use_cache = rng.random() < 0.6
     static = rng.random() < 0.2
-    long_pool = HX.make_long_pool(rng) if rng.random() < 0.15 else None
+    long_pool = HX.make_long_pool(rng) if rng.random() < 0.3 else None
     via_from = rng.random() < 0.4
     w = WX.Walker(prune, use_cache, via_from)
     tiny = rng.random() < 0.3
@@ -67,6 +67,14 @@ def drive(rng, tier):
         shrink = [("del", K + a, "meth"), ("del", K + b, "meth")]
         directed = (nib(K + a), rng.randint(1, 2 * len(K) + 2))
         static = False
+    if collapse is None and shrink is None and rng.random() < 0.08:
+        # deep family: keys LONGER than 32 bytes that fork only in their last byte / nibble (nodes deeper than 64 nibbles)
+        base = bytes(rng.randrange(256) for _ in range(rng.choice([33, 34, 40])))
+        writes = [("set", base, HX.gen_value(rng), "meth"), ("set", base[:-1] + bytes([base[-1] ^ rng.choice([0x01, 0x10])]), HX.gen_value(rng), "meth"),
+                  ("set", HX.gen_key(rng), HX.gen_value(rng), "meth")]
+        m = {}
+        for x in writes:
+            HX.apply_model(m, x)
     ops = [("trie", x) for x in writes]
     outs = [w.step(o) for o in ops]
     # a second, independent walk in the same process: another trie with related keys and other values, its own fog and its own
